@@ -164,14 +164,14 @@ def finish(res, explanation, level='other'):
         'wall_s': round(wall, 3),
         'violations': len(unlisted),
     }
-    evdir = VERIF / 'evidence'
-    evdir.mkdir(exist_ok=True)
+    evdir = pathlib.Path(os.environ['VERIF_EVIDENCE_DIR']) if os.environ.get('VERIF_EVIDENCE_DIR') else VERIF / 'evidence'   # (override used only by the seed tooling)
+    evdir.mkdir(parents=True, exist_ok=True)
     (evdir / f'{prop}.json').write_text(json.dumps(ev, indent=1, default=str))
     print(f'{prop} [{res.tier}] obligations={n_ob} discharged={n_ok} abstained={n_abs} '
           f'known={len(listed)} violations={len(unlisted)} wall={wall:.2f}s')
     if unlisted:
-        rdir = VERIF / 'replays'
-        rdir.mkdir(exist_ok=True)
+        rdir = pathlib.Path(os.environ['VERIF_EVIDENCE_DIR']) / 'replays' if os.environ.get('VERIF_EVIDENCE_DIR') else VERIF / 'replays'
+        rdir.mkdir(parents=True, exist_ok=True)
         rp = rdir / f'{prop}.json'
         rp.write_text(json.dumps({'property': prop, 'violations': [o.as_dict() for o, _ in unlisted]}, indent=1, default=str))
         for o, _ in unlisted:
